@@ -115,7 +115,7 @@ class C08(Check):
         "duplicate i, add an unrequested id, add an error object with a null id, retype id i (1<->'1', true, 1.0), null id i} and every whole-body replacement (batch-level "
         "error objects, a single response object, null / number / string / {} / arrays of non-responses); (b) Hypothesis: up to 3 stacked "
         "operations; single calls: id relation {equal, different, null, type-confused} x body shape. x strict on/off x sync/async, read via "
-        "batch.send (positional access, .related, .result), via batch.add(...).call() and - for all-success batches - via a second round trip of the same batch object after two more calls were added (answered in reverse order). Oracle: reference relation - not a response "
+        "batch.send (positional access, .related, .result), via batch.add(...).call() [round 16: also with requests the caller keeps no reference to - the accepted responses must still lead to them] and - for all-success batches - via a second round trip of the same batch object after two more calls were added (answered in reverse order). Oracle: reference relation - not a response "
         "(array) => DeserializationError; repeated / missing / unrequested / type-confused id => IdentityError; batch-level error => raised "
         "by call()/.result; else every response is linked to the request with its id and position k / tuple element k belongs to call k, "
         "the first failing call in request order is the exception raised (class registered for the code). non-trivial = the program is not "
